@@ -511,6 +511,9 @@ func runC14(c *Ctx) {
 	r5 := c.Rule("R5", "a committed transaction cannot be rolled back: after the commit point phase2Commit cannot return an error (which would make Phase2Commit run the rollback against committed data), and Phase2Commit sets committed only on the nil path (shared with C01.R3)", 3)
 	ruleNothingFailsAfterCommitPoint(c, r5)
 
+	r6 := c.Rule("R6", "a failed Commit ends the transaction: in SinglePhaseTransaction.Commit every failure edge - SOP's own Phase1Commit included, which for readers returns an error without having ended the transaction - passes t.Rollback, which rolls back SOP's transaction and every participant (shared with C16.R2)", 9)
+	driverRules(c, "", r6)
+
 }
 
 func dedup(xs []string) []string {
